@@ -71,8 +71,17 @@ void h_bool(void)
 #define NUM_PRE \
 JSON_PRE(self) JSON_FRESH(out) \
 __CPROVER_requires(POS < N) \
-__CPROVER_requires(GJ_num_start == POS && GJ_conv_calls == 0) \
-__CPROVER_assigns(self->_pos, self->_error, *out, GJ_conv_calls)
+__CPROVER_requires(GJ_num_start == POS && GJ_conv_calls == 0 && !GJ_fc_called && GJ_sd_calls == 0) \
+__CPROVER_assigns(self->_pos, self->_error, *out, GJ_conv_calls, GJ_fc_called, GJ_fc_ec, GJ_fc_val, GJ_sd_calls, GJ_sd_val)
+/* N7 (both proofs): which conversion result ends up in the value. C13: "every well-formed number decodes to its value; an integer that
+ * does not fit int64 falls back to a double, never a wrong value". Integer path (from_chars was called on the token):
+ *   it converted        => the value is an Int holding exactly what from_chars wrote
+ *   result_out_of_range => the value is a Double holding what strtod returned for the same token (strtod's argument is asserted to be
+ *                          exactly the token in the stub) */
+#define NUM_N7 \
+__CPROVER_ensures((RET && GJ_fc_called && GJ_fc_ec == 0) ==> (out->type == JsonType_Int && out->i == GJ_fc_val)) \
+__CPROVER_ensures((RET && GJ_fc_called && GJ_fc_ec != 0) ==> (out->type == JsonType_Double && GJ_sd_calls == 1 && out->d == GJ_sd_val)) \
+__CPROVER_ensures((RET && !GJ_fc_called) ==> (out->type == JsonType_Double && GJ_sd_calls == 1 && out->d == GJ_sd_val))
 
 /* proof number_safety: every input. Built-in checks, shim preconditions (every _text[_pos] in range, substr in range, the
  * conversion is applied to exactly the scanned token), loop invariants/variants, frame, plus: */
@@ -87,6 +96,7 @@ __CPROVER_requires(!GN_on)
                                                   __CPROVER_ensures(RET ==> ((out->type == JsonType_Int || out->type == JsonType_Double) && GJ_conv_calls >= 1 && GJ_conv_calls <= 2))
 /* N5 only number bytes are consumed (witness GK) */ __CPROVER_ensures((RET && OLDPOS <= GK && GK < POS) ==> NUM_ALPHA(TXT(GK)))
 /* N6 the last consumed byte is a digit */        __CPROVER_ensures(RET ==> JSON_IS_DIGIT(TXT(POS - 1)))
+/* N7 */ NUM_N7
 ;
 void h_num(void)
 {
@@ -117,6 +127,7 @@ __CPROVER_requires(NUM_SPEC)
 /* A3 frac or exp => floating point value */      __CPROVER_ensures(NUM_HAS_FRAC_OR_EXP ==> out->type == JsonType_Double)
 /* A4 otherwise integer (double only as overflow fallback) */
                                                   __CPROVER_ensures(!NUM_HAS_FRAC_OR_EXP ==> (out->type == JsonType_Int || (out->type == JsonType_Double && GJ_conv_calls == 2)))
+/* N7 */ NUM_N7
 ;
 void h_num_accept(void)
 {
@@ -172,7 +183,7 @@ void h_search(void)
     __CPROVER_assert(!ok || o.b == lt, "B2/B3 value");
   } else {
     __CPROVER_assume(START < IN_N);
-    GJ_num_start = START; GJ_conv_calls = 0;
+    GJ_num_start = START; GJ_conv_calls = 0; GJ_fc_called = 0; GJ_sd_calls = 0;
     bool ok = JsonParser_parseNumber(&ps, &o);
     long e = ref_number_end(IN, IN_N, START);
     __CPROVER_assert(START <= ps._pos && ps._pos <= IN_N, "N1");
